@@ -20,6 +20,7 @@ func init() {
 		"(2) BOOL: the decision table of filterHit's per-condition loop body (constant propagation over its CFG) is: a line fails exactly when some condition's hit flag equals its negation, an empty filter hits; within the name branch every operand is the node name, within the subtag branch every operand is the subscription tag; " +
 		"(3) FIRSTLINE: after a node is appended for a matching filter line no further line is evaluated for it, the annotation index is the filter line's index, node and annotation are appended together, nodes are ranged in pool order, no-filter returns the pool with empty annotations; " +
 		"(4) ERRFLOW: filter, policy and annotation errors are returned (wrapped) by the control-plane constructor. " +
+		"(5) ARITY: the policy parser accepts exactly one policy function and fixed() exactly one keyless parameter (decision table over the counts); (6) NOALIAS: the filter result is appended into fresh storage, never into a reslice of the shared node pool. " +
 		"Not decided: regex/keyword matching on values, validation of filter parts no node reaches."})
 }
 
@@ -28,6 +29,8 @@ func runC14(c *Ctx) {
 	c14Bool(c)
 	c14FirstLine(c)
 	c14ErrFlow(c)
+	c14Arity(c)
+	c14NoAlias(c)
 }
 
 // switchDefaultsOnlyErrors checks every tagged switch over a string-typed tag in f.
